@@ -265,7 +265,11 @@ constexpr auto inverse_in(TargetUnits target_units, Quantity<U, R> q) {
     // getting represented as 0, which would happen for values over the threshold.)
 
     // This will fail at compile time for types that can't hold 1'000'000.
-    constexpr R threshold{1'000'000};
+    static_assert(std::is_floating_point<R>::value ||
+                      (std::numeric_limits<R>::max() >= 1'000'000),
+                  "Dangerous inversion: this Rep cannot hold values large enough for a safe "
+                  "inversion; must supply explicit Rep if truly desired");
+    constexpr R threshold = 1'000'000;
 
     constexpr auto UNITY = make_constant(UnitProductT<>{});
 
